@@ -56,6 +56,7 @@ type Plan struct {
 	Fences             bool // yield fences in readFrames / sendServeMsg are active
 	CaptureFences      bool // yield before every lock around the captured fingerprint data (serve loop)
 	BodyReadFences     bool // yield in noteBodyReadFromHandler (request body credit message)
+	WriteFences        bool // yield at the start of writeFrameAsync: a frame write stays in flight as long as the controller likes (stand-in for TCP back-pressure)
 	CancelBeforeServe  bool
 	SchedKind          string // "", "rr", "priority", "random": write scheduler installed through NewWriteScheduler
 	SchedCfg           *http2.PriorityWriteSchedulerConfig
@@ -305,7 +306,7 @@ func NewWorld(t testingT, plan *Plan) *World {
 	w.rng = &pcg{s: plan.Tail}
 	http2.VerifResetPools()
 	http2.VerifYield = nil
-	if plan.Fences || plan.CaptureFences || plan.BodyReadFences {
+	if plan.Fences || plan.CaptureFences || plan.BodyReadFences || plan.WriteFences {
 		http2.VerifYield = func(site, remote string) {
 			if site == "capture" {
 				if plan.CaptureFences {
@@ -314,6 +315,17 @@ func NewWorld(t testingT, plan *Plan) *World {
 					k := w.captureSeq
 					w.mu.Unlock()
 					w.Yield(fmt.Sprintf("capture#%04d", k))
+				}
+				return
+			}
+			if site == "write" {
+				if plan.WriteFences {
+					w.mu.Lock()
+					w.captureSeq++
+					k := w.captureSeq
+					w.mu.Unlock()
+					w.Probes["write_fence"]++
+					w.Yield(fmt.Sprintf("write#%05d:%s", k, remote))
 				}
 				return
 			}
